@@ -560,7 +560,7 @@ def build_scenario(rng, main_name, disk, flags, pred=None):
     if radix != 16:
         argv += ["-listradix", str(radix)]
     argv += files
-    sc = dict(argv=argv, cwd="/w", dirs=["/w", "/w/t", "/w/p"], disk=d, env=env, max_events=1400000, cpu=100)
+    sc = dict(argv=argv, cwd="/w", dirs=["/w", "/w/t", "/w/p", "/w/t/sub"], disk=d, env=env, max_events=1400000, cpu=100)
     return sc, radix, sharefmt, extra
 
 
@@ -708,6 +708,18 @@ def run_case(sim, case):
             src = "\n".join(lines[:2] + extra + body)
             if rng.chance(0.5):
                 src = src.replace("\tshared", "\tphase 4096\nphl:\tdb 1,2\n\tdephase\n\tshared", 1) if "\tshared" in src else src + "\tphase 4096\nphl:\tdb 1,2\n\tdephase\n"
-            one("gen", {"/w/t/gen.asm": src.encode()}, [], False)
+            gdisk = {}
+            if rng.chance(0.3):
+                # code in include files: a line entry names the file its line is in.  Names that differ in case only are
+                # different files here, as are equal names in two directories
+                n1, n2 = rng.choice([("blk.inc", "BLK.INC"), ("tab.inc", "Tab.inc"), ("one.inc", "two.inc"), ("blk.inc", "sub/blk.inc"),
+                                     ("gen.inc", "GEN.INC")])
+                gdisk["/w/t/" + n1] = ("\t%s 21h\n\t%s 22h,23h\n" % (dbs, dbs)).encode()
+                gdisk["/w/t/" + n2] = ("; second file\n\n\n\t%s 31h\n\t%s 32h\n" % (dbs, dbs)).encode()
+                src += "\n\tinclude \"%s\"\n\tinclude \"%s\"\n" % ((n1, n2) if rng.chance(0.7) else (n2, n1))
+                if rng.chance(0.3):
+                    src += "\tinclude \"%s\"\n" % n1
+            gdisk["/w/t/gen.asm"] = src.encode()
+            one("gen", gdisk, [], False)
     return {"violations": out, "runs": acc["runs"], "sim_us": acc["sim_us"], "shapes": sorted(acc["shapes"]), "keys": acc["keys"],
             "stats": acc["stats"], "faults": acc["faults"], "probes": acc["probes"], "sample": sample}
